@@ -505,7 +505,10 @@ class CaseRunner:
                 else:
                     self.stat('calls_raising:' + r0[0][1])
                 if r0 != r1:
-                    self.fail('call %s(*%r, **%r) after rebinding %r: original %r, converted %r' % (tname, args, kwargs, base, r0, r1),
+                    lost = sorted(k for k in r0[1] if r0[1].get(k) != r1[1].get(k)) if r0[0] == r1[0] else []
+                    head = ('rebinding of %s by the converted function is not what the original does (seen through the sibling '
+                            'getters): ' % ', '.join(lost)) if lost else ''
+                    self.fail(head + 'call %s(*%r, **%r) after rebinding %r: original %r, converted %r' % (tname, args, kwargs, base, r0, r1),
                               crec, i, cleared_cls if (r0[0][0] != r1[0][0]) else None)
                     break
         # mutable defaults are shared: mutate through the converted function's view, observe on the original
